@@ -129,8 +129,12 @@ func (h *Host) HostCall(pc ProgramCounter, instrCount uint64) (psi_result Psi_H_
 			}
 		}
 		omegaResult := omega(input)
+		name := "unknown"
+		if input.Operation >= 0 && int(input.Operation) < len(hostCallName) {
+			name = hostCallName[input.Operation]
+		}
 		pvmLogger.Debugf("%s host-call return: %d, gas : %d\nRegisters: %v\n",
-			hostCallName[input.Operation], omegaResult.ExitReason.GetReasonType(), h.Interpreter.Gas, h.Interpreter.Registers)
+			name, omegaResult.ExitReason.GetReasonType(), h.Interpreter.Gas, h.Interpreter.Registers)
 
 		switch omegaResult.ExitReason {
 		case ExitContinue:
